@@ -18,7 +18,8 @@ RULE = ('hypothesis: 1-4 rows of JSON documents (dict/list nesting <= 3; keys fr
         'Optional and a Required Json attribute, or 1-3 rows of IntArray/StrArray/FloatArray (Optional) and a Required '
         'IntArray; ONE operation per case: JSON path projection, path ==,!=,<,>,<=,>= scalar, is [not] None, key/item '
         '[not] in path, len(path) (projection and comparison), [not] path truthiness; array a[i], a[i] cmp v, a[i:j], '
-        'v [not] in a, [..] [not] in a (subset), len(a), [not] a; every key/index/operand as literal or parameter '
+        'v [not] in a, [..] [not] in a (subset with set semantics: short lists, lists of members with repeats and longer '
+        'than the array, permutations with repeats, supersets), len(a), [not] a; every key/index/operand as literal or parameter '
         '(array bounds also as column / omitted); or 2-3 JSON path operations over the same attribute in ONE query '
         '((c1) and (c2), (c1) or (c2), tuple projection), most often sharing the same query variable(s) and differing '
         'only in a literal path component, also all-literal and independent-variable mixes; every case is run in the '
@@ -45,6 +46,7 @@ CLASS_FLOORS = {'mode:fallback': 0.3, 'mode:json1': 0.3, 'form:gen': 0.3, 'form:
                 'json:param_path': 0.08, 'json:quoted_key': 0.08, 'json:neg_index': 0.02, 'json:depth>=2': 0.06,
                 'json:cmp': 0.03, 'json:in': 0.03, 'json:truth': 0.03, 'json:proj': 0.03, 'json:len': 0.015,
                 'array:slice': 0.02, 'array:index': 0.02, 'array:contains': 0.01, 'array:subset': 0.01,
+                'array:subset_repeats': 0.004, 'array:subset_longer_but_contained': 0.002,
                 'json:multi': 0.08, 'multi:same_vars_other_literals': 0.04, 'multi:tuple': 0.015, 'multi:and': 0.015,
                 'multi:or': 0.008, 'multi:all_literal': 0.008}
 
@@ -89,6 +91,12 @@ def _classes(case):
         if any(part.get('vm') == 'p' or part.get('km') == 'p' for part in parts): out.append('json:param_operand')
     else:
         out.append('array:' + op['attr'])
+        if op['t'] == 'subset':
+            items = op['items']
+            if len(set(items)) < len(items): out.append('array:subset_repeats')
+            if any(len(items) > len(r[op['attr']]) and set(items) <= set(r[op['attr']]) for r in case['rows']):
+                out.append('array:subset_longer_but_contained')
+            if op.get('im') == 'p': out.append('array:subset_param')
         for b in ('i', 'j'):
             if b in op: out.append('array:bound_' + op[b]['m'])
     return out
